@@ -136,7 +136,7 @@ var blockNames = []string{"div", "p", "ul", "li", "section", "h1", "article", "m
 var voidNames = []string{"br", "hr", "input", "img"}
 
 var constVals = []struct{ val, quote string }{
-	{"v", `"`}, {"a b", `"`}, {"x&amp;y", `"`}, {"it&#39;s", `"`}, {"say &quot;hi&quot;", `"`}, {"a'b", `"`}, {"a\"b", `'`}, {"plain", ""}, {"é", `"`}, {"", `"`}, {"1&lt;2", `'`}, {"a=b", `"`}, {"p/q", `"`},
+	{"v", `"`}, {"a b", `"`}, {"x&amp;y", `"`}, {"it&#39;s", `"`}, {"say &quot;hi&quot;", `"`}, {"a'b", `"`}, {"a\"b", `'`}, {"plain", ""}, {"é", `"`}, {"", `"`}, {"1&lt;2", `'`}, {"a=b", `"`}, {"p/q", `"`}, {"two\nlines", `"`},
 	// references without a terminating semicolon and escaped ampersands in front of things that
 	// look like references: html.UnescapeString decodes legacy names and numbers without ';'
 	{"/l?id=1&amp;copy=2", `"`}, {"&amp;lt", `"`}, {"&amp;#38;region", `"`}, {"&amp;#60", `'`}, {"a&b", `"`}, {"&lt", `"`}, {"&amp;amp;", `"`}, {"x &amp;&amp; y", `"`}, {"&#x26;gt", `"`}, {"&copy", `"`},
@@ -332,6 +332,9 @@ func (g *gen) node(depth int) Node {
 		n.Kind = rapid.SampledFrom([]string{"htmlcomment", "gocomment", "gocomment"}).Draw(g.t, "comment")
 		n.Text = rapid.SampledFrom([]string{" note ", " it's a \"comment\" ", " <b>not markup</b> ", " é ", " TODO: x ", ""}).Draw(g.t, "ctext")
 		n.Multiline = rapid.Bool().Draw(g.t, "mlc")
+		if n.Kind == "htmlcomment" && rapid.IntRange(0, 3).Draw(g.t, "mlhtml") == 0 {
+			n.Text = " first line\n\t\tsecond line " // an HTML comment is rendered byte for byte
+		}
 		if n.Kind == "htmlcomment" && n.Text == "" {
 			n.Text = " c "
 		}
